@@ -18,7 +18,7 @@ def enforcementPackageVars : List String := []
 def enforcementWrites : List String := ["Request.Close"]
 
 /-- … and the functions visited -/
-def enforcementFunctions : List String := [".Error", ".hostWithoutPort", ".isASCII", ".randString", ".trace", "Server.enforcementHandler", "Server.strictSNIHostEnabled"]
+def enforcementFunctions : List String := [".Error", ".isASCII", ".randString", ".trace", "Server.enforcementHandler"]
 
 /-- modules/caddyhttp/app.go: the keys of the context.WithValue calls inside the `ConnContext:` function literals
     (the per-connection values every request's context carries), how many such literals there are, and whether
